@@ -33,12 +33,42 @@ class Heap:
 
     def __init__(self, sim, st, terminal_ty):
         self.sim, self.st, self.tty = sim, st, terminal_ty
-        self.fields = sim.adt_fields(terminal_ty)
+        import layout
         self.cells = {}
-        names = [n for n, _ in self.fields]
-        self.i_state = [i for i, (n, t) in enumerate(self.fields) if is_adt(t, "SettableData") and "State" in ty_str(t)][0]
-        self.i_cmd = [i for i, (n, t) in enumerate(self.fields) if is_adt(t, "SettableData") and "Command" in ty_str(t)][0]
-        self.i_other = [i for i, (n, t) in enumerate(self.fields) if is_adt(t, "Option") and t["args"][0].get("k") == "ref"][0]
+        # where a terminal keeps its two settable-data records and its partner link: found by type through private sub-structs,
+        # tuples and newtypes (layout.leaves), not by position or name
+        self.leaves = layout.leaves(sim, terminal_ty, stop=("SettableData", "Option", "RefCell"))
+
+        def one(pred, what):
+            c = [(n, t, p) for (n, t, p) in self.leaves if pred(t)]
+            if len(c) != 1:
+                raise AnchorMissing("Terminal %s field" % what)
+            return c[0]
+        _, self.ty_state, self.p_state = one(lambda t: is_adt(t, "SettableData") and "State" in ty_str(t), "state settable-data")
+        _, self.ty_cmd, self.p_cmd = one(lambda t: is_adt(t, "SettableData") and "Command" in ty_str(t), "command settable-data")
+        _, self.ty_other, self.p_other = one(lambda t: is_adt(t, "Option") and t["args"][0].get("k") == "ref", "partner-link")
+
+    def build_value(self, ty, prefix, special, path=()):
+        """a value of struct type ty with the leaves in `special` (path -> value) and fresh symbols elsewhere"""
+        import layout
+        fs = []
+        for i, (n, t) in enumerate(layout.children(self.sim, ty)):
+            p = path + (i,)
+            if p in special:
+                fs.append(special[p])
+            elif layout.transparent(self.sim, t, ("SettableData", "Option", "RefCell")):
+                fs.append(self.build_value(t, prefix + "." + n, special, p))
+            else:
+                fs.append(Sym(prefix + "." + n, t))
+        return Struct(ty, fs)
+
+    def get(self, term_val, which):
+        import layout
+        return layout.get_path(self.sim, None, term_val, {"state": self.p_state, "cmd": self.p_cmd, "other": self.p_other}[which])
+
+    def with_other(self, term_val, other_val):
+        import layout
+        return layout.set_path(self.sim, None, term_val, self.p_other, other_val)
 
     def settable(self, ty, req):
         """SettableData in the state (following a fresh symbolic getter | nothing, last request req | none) - built through the
@@ -54,18 +84,19 @@ class Heap:
 
     def datum(self, opt_ty_holder, tag, prefix):
         """Datum value of the payload type stored in SettableData<Datum<X>,E> field idx."""
-        sd_ty = self.fields[opt_ty_holder][1]
+        sd_ty = {"state": self.ty_state, "cmd": self.ty_cmd}[opt_ty_holder]
         dty = sd_ty["args"][0]
         fs = self.sim.adt_fields(dty)
         return Struct(dty, (Struct(fs[0][1], (Sym("t%s%s" % (prefix, tag), prim("i64")),)), Sym("%s%s" % (prefix, tag), fs[1][1])))
 
     def terminal(self, tag, state=False, cmd=False, other=None):
-        f = [None] * len(self.fields)
-        f[self.i_state] = self.settable(self.fields[self.i_state][1], self.datum(self.i_state, tag, "s") if state else None)
-        f[self.i_cmd] = self.settable(self.fields[self.i_cmd][1], self.datum(self.i_cmd, tag, "c") if cmd else None)
-        oty = self.fields[self.i_other][1]
-        f[self.i_other] = self.sim.mk_enum(oty, "None") if other is None else self.sim.mk_enum(oty, "Some", [Ref(Ptr(other))])
-        return Struct(self.tty, f)
+        oty = self.ty_other
+        special = {
+            self.p_state: self.settable(self.ty_state, self.datum("state", tag, "s") if state else None),
+            self.p_cmd: self.settable(self.ty_cmd, self.datum("cmd", tag, "c") if cmd else None),
+            self.p_other: self.sim.mk_enum(oty, "None") if other is None else self.sim.mk_enum(oty, "Some", [Ref(Ptr(other))]),
+        }
+        return self.build_value(self.tty, "cell_" + tag, special)
 
     def cell(self, tag, state=False, cmd=False):
         oid = self.st.new_obj("cell_" + tag, Opaque("RefCell", (self.terminal(tag, state, cmd), 0)))
@@ -76,15 +107,12 @@ class Heap:
     def link(self, a, b):
         for x, y in ((a, b), (b, a)):
             cell = self.st.mem[self.cells[x]]
-            t = cell.data[0]
-            f = list(t.fields)
-            oty = self.fields[self.i_other][1]
-            f[self.i_other] = self.sim.mk_enum(oty, "Some", [Ref(Ptr(self.cells[y]))])
-            self.st.mem[self.cells[x]] = Opaque("RefCell", (Struct(self.tty, f), cell.data[1]))
+            t = self.with_other(cell.data[0], self.sim.mk_enum(self.ty_other, "Some", [Ref(Ptr(self.cells[y]))]))
+            self.st.mem[self.cells[x]] = Opaque("RefCell", (t, cell.data[1]))
 
     def partner(self, st, tag):
         cell = self.sim.final_value(st, st.mem[self.cells[tag]])
-        o = cell.data[0].fields[self.i_other]
+        o = self.get(cell.data[0], "other")
         if isinstance(o, Enum) and o.vname == "Some":
             r = o.fields[0]
             for k, oid in self.cells.items():
@@ -98,7 +126,7 @@ class Heap:
 
     def slot(self, st, tag, which):
         cell = self.sim.final_value(st, st.mem[self.cells[tag]])
-        sd = cell.data[0].fields[self.i_state if which == "state" else self.i_cmd]
+        sd = self.get(cell.data[0], "state" if which == "state" else "cmd")
         import sdkit
         return sdkit.kit(self.sim, self.sim.prog).request_option(None, sd)
 
@@ -207,8 +235,8 @@ class DeviceHeap:
         self.presets = presets or {}
 
     def dev_ty_fields_ty(self):
-        fs = self.sim.adt_fields(self.dev_ty)
-        for n, t in fs:
+        import layout
+        for n, t, p in layout.leaves(self.sim, self.dev_ty, stop=("RefCell", "Reference", "SettableData")):
             r = find_ty(t, "Terminal")
             if r:
                 return t
@@ -216,30 +244,42 @@ class DeviceHeap:
 
     def build(self, config):
         """config: list per terminal of dict(state=bool, cmd=bool, partner=None|dict(state=bool, cmd=bool)).
-        Terminals are taken in declaration order of the RefCell<Terminal> fields (arrays expand)."""
+        Terminals are taken in declaration order of the RefCell<Terminal> leaves of the device (arrays expand; private sub-structs,
+        newtypes and tuples are looked through: layout)."""
+        import layout
         sim, st = self.sim, self.st
-        fs = sim.adt_fields(self.dev_ty)
-        vals = []
-        ti = 0
-        for n, t in fs:
-            if is_adt(t, "RefCell") and find_ty(t, "Terminal"):
-                vals.append(self._cell(config[ti], ti))
-                self.terms.append(((("f", len(vals) - 1),), str(ti)))
-                ti += 1
-            elif t.get("k") == "array" and is_adt(t["ty"], "RefCell"):
-                from program import const_val
-                k = const_val(t["len"])
-                elems = []
-                for j in range(k):
-                    elems.append(self._cell(config[ti], ti))
-                    self.terms.append(((("f", len(vals)), ("i", j)), str(ti)))
-                    ti += 1
-                vals.append(Array(elems, t))
-            elif n in self.presets:
-                vals.append(self.presets[n])
-            else:
-                vals.append(Sym("self." + n, t))
-        self.oid = st.new_obj("dev", Struct(self.dev_ty, vals))
+        ti = [0]
+
+        def has_term(t):
+            return bool(find_ty(t, "Terminal")) or (layout.transparent(sim, t, ("RefCell", "Reference", "SettableData")) and any(has_term(ct) for _n, ct in layout.children(sim, t)))
+
+        def build(ty, prefix, steps):
+            vals = []
+            for i, (n, t) in enumerate(layout.children(sim, ty)):
+                here = steps + (("f", i),)
+                dotted = (prefix + "." + n) if prefix else n
+                if is_adt(t, "RefCell") and find_ty(t, "Terminal"):
+                    vals.append(self._cell(config[ti[0]], ti[0]))
+                    self.terms.append((here, str(ti[0])))
+                    ti[0] += 1
+                elif t.get("k") == "array" and is_adt(t["ty"], "RefCell") and find_ty(t["ty"], "Terminal"):
+                    from program import const_val
+                    k = const_val(t["len"])
+                    elems = []
+                    for j in range(k):
+                        elems.append(self._cell(config[ti[0]], ti[0]))
+                        self.terms.append((here + (("i", j),), str(ti[0])))
+                        ti[0] += 1
+                    vals.append(Array(elems, t))
+                elif dotted in self.presets:
+                    vals.append(self.presets[dotted])
+                elif layout.transparent(sim, t, ("RefCell", "Reference", "SettableData")) and has_term(t):
+                    vals.append(build(t, dotted, here))
+                else:
+                    vals.append(Sym("self." + dotted, t))
+            return Struct(ty, vals)
+        devval = build(self.dev_ty, "", ())
+        self.oid = st.new_obj("dev", devval)
         st.labels[self.oid] = "dev"
         # link partners (need device object id for back references)
         for (path, tag), conf in zip(self.terms, config):
@@ -251,16 +291,10 @@ class DeviceHeap:
                 # partner.other -> device terminal cell ; device terminal.other -> partner
                 cellptr = Ptr(self.oid, path)
                 pv = st.mem[poid]
-                t = pv.data[0]
-                f = list(t.fields)
-                oty = self.h.fields[self.h.i_other][1]
-                f[self.h.i_other] = sim.mk_enum(oty, "Some", [Ref(cellptr)])
-                st.mem[poid] = Opaque("RefCell", (Struct(self.tty, f), 0))
+                oty = self.h.ty_other
+                st.mem[poid] = Opaque("RefCell", (self.h.with_other(pv.data[0], sim.mk_enum(oty, "Some", [Ref(cellptr)])), 0))
                 cell = sim.read(st, cellptr)
-                tv = cell.data[0]
-                f = list(tv.fields)
-                f[self.h.i_other] = sim.mk_enum(oty, "Some", [Ref(Ptr(poid))])
-                sim.write(st, cellptr, Opaque("RefCell", (Struct(self.tty, f), 0)))
+                sim.write(st, cellptr, Opaque("RefCell", (self.h.with_other(cell.data[0], sim.mk_enum(oty, "Some", [Ref(Ptr(poid))])), 0)))
         return Ref(Ptr(self.oid), True)
 
     def _cell(self, conf, i):
@@ -269,7 +303,7 @@ class DeviceHeap:
     def own_slot(self, st, i, which):
         path, tag = self.terms[i]
         cell = self.sim.final_value(st, self.sim.read(st, Ptr(self.oid, path)))
-        sd = cell.data[0].fields[self.h.i_state if which == "state" else self.h.i_cmd]
+        sd = self.h.get(cell.data[0], "state" if which == "state" else "cmd")
         import sdkit
         return sdkit.kit(self.sim, self.sim.prog).request_option(None, sd)
 
